@@ -38,9 +38,33 @@ func RenameBlankIdentifierWith(sig *types.Signature, prefix string) *types.Signa
 	return types.NewSignature(sig.Recv(), renamedTuple, sig.Results(), sig.Variadic())
 }
 
+// needsRename: blank and missing names cannot be forwarded, and these names are used by the templates themselves.
+// RenameAllWith gives every parameter a generated name.
+func RenameAllWith(sig *types.Signature, prefix string) *types.Signature {
+	params := sig.Params()
+	vars := make([]*types.Var, params.Len())
+	for i := range vars {
+		v := params.At(i)
+		vars[i] = types.NewVar(v.Pos(), v.Pkg(), prefix+strconv.Itoa(i), v.Type())
+	}
+	return types.NewSignature(sig.Recv(), types.NewTuple(vars...), sig.Results(), sig.Variadic())
+}
+
+func needsRename(name string) bool {
+	switch name {
+	case blackIdentifier, "", "f", "err", "success":
+		return true
+	}
+	if strings.HasPrefix(name, "out") {
+		_, err := strconv.Atoi(name[len("out"):])
+		return err == nil
+	}
+	return false
+}
+
 func hasBlankIdentifier(tup *types.Tuple) bool {
 	for i := 0; i < tup.Len(); i++ {
-		if tup.At(i).Name() == blackIdentifier {
+		if needsRename(tup.At(i).Name()) {
 			return true
 		}
 	}
@@ -51,7 +75,7 @@ func rename(tup *types.Tuple, prefix string) *types.Tuple {
 	vars := make([]*types.Var, tup.Len())
 	for i := range vars {
 		varValue := tup.At(i)
-		if varValue.Name() == blackIdentifier || strings.HasPrefix(varValue.Name(), prefix) {
+		if needsRename(varValue.Name()) || strings.HasPrefix(varValue.Name(), prefix) {
 			varValue = types.NewVar(varValue.Pos(), varValue.Pkg(), prefix+strconv.Itoa(i), varValue.Type())
 		}
 		vars[i] = varValue
